@@ -213,10 +213,50 @@ def features(c):
     return "+".join(f) or "plain"
 
 
+def selftest(ctx):
+    """Binding self-test: a correct synthetic trace must pass, and each single corruption of it must be flagged by TLC
+    with the law it breaks (otherwise the judge is vacuous)."""
+    c = {"b": [1], "t": [2], "o": [3], "mt": "merge3", "scope": "full", "rp": False, "sb": False, "cp": False, "act": "take_this"}
+    absent = {s: "absent" for s in SUFFIXES}
+    equal = {s: "equal" for s in SUFFIXES}
+    good = [{"rec": True, "file": ["oracle"], "regions": True, "helpers": equal, "others": 0},
+            {"rec": False, "file": ["this"], "regions": False, "helpers": absent, "others": 0}]
+
+    def variant(step, **kw):
+        tr = [dict(ob) for ob in good]
+        tr[step].update(kw)
+        return tr
+    probes = [("ok", True, good, set()),
+              ("iff", True, variant(0, rec=False)[:1], {"iff"}),
+              ("marked", True, variant(0, file=["this"]), {"marked"}),
+              ("helpers", True, variant(0, helpers=dict(equal, OTHER="differs")), {"helpers"}),
+              ("clean", False, [{"rec": False, "file": ["this"], "regions": False, "helpers": absent, "others": 0}], {"clean"}),
+              ("take", True, variant(1, file=["other"]), {"take"}),
+              ("leftover", True, variant(1, helpers=dict(absent, BASE="equal")), {"leftover"}),
+              ("shape", False, good, {"shape", "iff"})]
+    rows = [{"c": c, "hc": hc, "tr": tr} for _, hc, tr, _ in probes]
+    got = {id(r): set(f) for r, f, _ in table.judge(ctx, "TextConflictTrace", rows, label="self-test", workers=2)}
+    for (name, _, _, want), r in zip(probes, rows):
+        have = got.get(id(r), set())
+        if (want and not (have & want)) or (not want and have):
+            ctx.machinery("binding self-test: probe %r judged %s, expected %s" % (name, sorted(have), sorted(want)))
+    ctx.cov["traces_validated_against_impl"] -= len(rows)       # synthetic rows are not implementation traces
+
+
 def run(ctx):
     env.init()
+    selftest(ctx)
     consts = {"MaxLen": 2, "FullLen": 0, "WeaveLen": 1} if ctx.quick else {"MaxLen": 3, "FullLen": 2, "WeaveLen": 2}
-    cases, _ = table_common.generate(ctx, "TextConflictGen", consts, workers=8, timeout=2400)
+    parts, _ = table_common.generate(ctx, "TextConflictGen", consts, workers=8, timeout=2400)
+    seen, cases = set(), []
+    for part in parts:                        # rotating / full-product / weave+lca parts of the case table
+        for c in part:
+            key = (tuple(c["b"]), tuple(c["t"]), tuple(c["o"]), c["mt"], c["rp"], c["sb"], c["cp"], c["act"])
+            if key not in seen:
+                seen.add(key)
+                cases.append(c)
+    if not cases:
+        ctx.machinery("generator exported no cases")
     # anti-vacuity: states of the machine TLC must reach (they do not depend on the text lengths: smallest bounds)
     for w in WITNESSES:
         tlc.check(ctx, "TextConflictGen", cfg_text=table.cfg({"MaxLen": 1, "FullLen": 0, "WeaveLen": 1}, (w,)),
